@@ -37,6 +37,7 @@ def run(ck):
     ck.rule("R2", "removal APIs drop the split of an address whose last callback is removed; the table forgets the key", floor=4)
     ck.rule("R3", "the breakpoint keys are the stop set, passed through to the dispatcher, which tests it after each block", floor=3)
     ck.rule("R4", "callbacks of the current pc run before the block; non-True results are yielded", floor=3)
+    ck.rule("R6", "the split set the translator updates is the object the disassembler consults: handed over by reference at construction and afterwards only mutated in place", floor=1)
     ck.rule("R5", "the disassembler ends a non-empty block at a split address with a fall-through constraint", floor=2)
 
     init = jm.get("__init__")
@@ -129,16 +130,7 @@ def run(ck):
           "a key whose last callback is removed must be deleted from the table and reported to the caller")
 
     # ---------------------------------------------------------------- R3
-    fn = jm.get("run_at")
-    ck.need(fn is not None, "Jitter.run_at vanished")
-    cs = [c for c in walk_body(fn) if isinstance(c, ast.Call) and dotted(c.func) == "self.jit.run_at"]
-    ok = False
-    if cs and len(cs[0].args) >= 3:
-        a = norm(cs[0].args[2])
-        ok = a in ("set(%s.callbacks)" % bh, "set(%s.callbacks.keys())" % bh, "%s.callbacks" % bh,
-                   "set(%s.callbacks.keys())" % bh, "%s.callbacks.keys()" % bh)
-    ck.ob("R3", "Jitter.run_at:stop-set", ok, m.where(fn),
-          "the stop set passed to the back end is not the set of breakpoint addresses")
+    stop_set_rules(ck, "R3")
     cm2 = ck.repo.mod(JC)
     fn = cm2.func("JitCore.run_at")
     sp = fn.args.args[3].arg
@@ -199,6 +191,51 @@ def run(ck):
           "the split address is not scheduled for disassembly")
 
 
+def stop_set_rules(ck, RID):
+    """The stop set given to the back end is the current set of breakpoint addresses: built from the callback table at each
+    run, or cached in an attribute that every API changing the table resets (shared by C23-R3 and C20-R8)."""
+    m = ck.repo.mod(JL)
+    jm = m.methods("Jitter")
+    fn = jm.get("run_at")
+    ck.need(fn is not None, "Jitter.run_at vanished")
+    bh = "self.breakpoints_handler"
+    fresh = ("set(%s.callbacks)" % bh, "set(%s.callbacks.keys())" % bh, "%s.callbacks" % bh, "%s.callbacks.keys()" % bh,
+             "frozenset(%s.callbacks)" % bh, "set(%s.callbacks.keys())" % bh)
+    cs = [c for c in walk_body(fn) if isinstance(c, ast.Call) and dotted(c.func) == "self.jit.run_at"]
+    ok = False
+    cache = None
+    if cs and len(cs[0].args) >= 3:
+        a = Resolver(fn).expand(cs[0].args[2])
+        ok = a in fresh
+        d = dotted(cs[0].args[2])
+        if not ok and d and d.startswith("self.") and d.count(".") == 1:
+            # a cached stop set: (re)built from the table in run_at when reset ...
+            cache = d
+            cfg = CFG(fn)
+            rebuilt = [nd for nd in cfg.nodes if nd.kind == "stmt" and isinstance(nd.ast, ast.Assign) and any(dotted(t) == cache for t in nd.ast.targets)
+                       and norm(nd.ast.value) in fresh]
+            tested = any(nd.kind == "test" and norm(nd.ast).replace(" ", "") in ("%sisNone" % cache, "not%s" % cache.replace(" ", "")) for nd in cfg.nodes) or \
+                any(nd.kind == "test" and cache in norm(nd.ast) and "None" in norm(nd.ast) for nd in cfg.nodes)
+            ok = bool(rebuilt) and tested
+    ck.ob(RID, "Jitter.run_at:stop-set", ok, m.where(fn),
+          "the stop set passed to the back end is not the set of breakpoint addresses (nor a cache rebuilt from it)")
+    if cache is not None:
+        # ... and reset by every method that changes the callback table, on every path to its exit
+        MUT = ("add_callback", "set_callback", "remove_callback", "remove_key")
+        for q, f in sorted(jm.items()):
+            muts = [c for c in walk_body(f) if isinstance(c, ast.Call) and isinstance(c.func, ast.Attribute) and c.func.attr in MUT and dotted(c.func.value) == bh]
+            wr = [n for n in walk_body(f) if isinstance(n, ast.Assign) and any(dotted(t) and dotted(t).startswith(bh + ".callbacks") for t in n.targets)]
+            if not muts and not wr:
+                continue
+            cfg = CFG(f)
+            reset = lambda nd: nd.kind == "stmt" and isinstance(nd.ast, ast.Assign) and any(dotted(t) == cache for t in nd.ast.targets) and \
+                (norm(nd.ast.value) == "None" or norm(nd.ast.value) in fresh)
+            res = cfg.must_pass(reset)
+            ck.ob(RID, "Jitter.%s:stop-cache-reset" % q, bool(res.get(cfg.exit.id)), m.where(f),
+                  "Jitter.%s changes the breakpoint table but leaves the cached stop set `%s` as it is: the C dispatch loops keep "
+                  "chaining through the new address (the Python back end does not use the stop set: the back ends diverge)" % (q, cache))
+
+
 def _c_dispatchers(ck):
     from sa import cast
     for rel, fname in (("miasm/jitter/Jitgcc.c", "gcc_exec_block"), ("miasm/jitter/Jitllvm.c", "llvm_exec_block")):
@@ -219,3 +256,40 @@ def _c_dispatchers(ck):
                             ok = True
         ck.ob("R3", "%s:stop-set-test" % fname, ok, rel,
               "the dispatch loop does not return when the next address is in the stop set")
+
+    # ---------------------------------------------------------------- R6 one shared split set
+    jc = ck.repo.mod(JC)
+    init = jc.func("JitCore.__init__")
+    shared = None
+    for c in walk_body(init):
+        if isinstance(c, ast.Call) and callee_attr(c) == "disasmEngine":
+            for kw in c.keywords:
+                if kw.arg == "split_dis" and dotted(kw.value) and dotted(kw.value).startswith("self."):
+                    shared = dotted(kw.value)
+    ck.ob("R6", "JitCore.__init__:split-set-handed-over", shared is not None, jc.where(init),
+          "the disassembler is not given the translator's split set: breakpoint addresses never end a block")
+    if shared is not None:
+        attr = shared.split(".", 1)[1]
+        # after construction the attribute is never rebound (an out-of-place set operation assigned back splits the two views)
+        for q, f in sorted(jc.funcs.items()):
+            if not q.startswith("JitCore.") or q == "JitCore.__init__":
+                continue
+            for n in walk_body(f):
+                if isinstance(n, ast.Assign) and any(dotted(t) == shared for t in n.targets):
+                    ck.ob("R6", "%s:rebinds-%s" % (q, attr), False, jc.where(n),
+                          "`%s` replaces the set object the disassembler was given at construction: later additions/removals are "
+                          "invisible to the disassembler (stale or missing block ends at breakpoint addresses)" % norm(n)[:80])
+        for q in ("JitCore.add_disassembly_splits", "JitCore.remove_disassembly_splits"):
+            f = jc.func(q)
+            inplace = any(isinstance(c, ast.Call) and isinstance(c.func, ast.Attribute) and dotted(c.func.value) == shared and
+                          c.func.attr in ("update", "difference_update", "add", "discard", "remove", "clear", "intersection_update", "symmetric_difference_update")
+                          for c in walk_body(f)) or any(isinstance(n, ast.AugAssign) and dotted(n.target) == shared for n in walk_body(f))
+            ck.ob("R6", "%s:in-place" % q.split(".")[1], inplace, jc.where(f), "%s does not update the shared split set in place" % q)
+        # the disassembler keeps the object it was given (no copy in its constructor)
+        ab = ck.repo.mod(AB)
+        dinit = ab.func("disasmEngine.__init__")
+        keeps = any(isinstance(c, ast.Call) and dotted(c.func) == "self.__dict__.update" and c.args and norm(c.args[0]) == "kwargs" for c in walk_body(dinit)) or \
+            any(isinstance(n, ast.Assign) and dotted(n.targets[0]) == "self.split_dis" and "kwargs" in norm(n.value) and "set(" not in norm(n.value) and "list(" not in norm(n.value)
+                for n in walk_body(dinit))
+        ck.ob("R6", "disasmEngine.__init__:keeps-reference", keeps, ab.where(dinit), "the disassembler copies the split collection it is given")
+
